@@ -64,7 +64,7 @@ def equivalent(utype, a, b):
 
 
 ACCESSORS = ["ham_new", "ham_assign", "faxis", "mol_new", "mol_set_energy", "mol_width", "mode_new", "mode_set_energy",
-             "agg_coupling", "agg_coupling_matrix", "cf_reorg", "sd_reorg", "length", "ham_rwa"]
+             "agg_coupling", "agg_coupling_matrix", "cf_reorg", "sd_reorg", "length", "ham_rwa", "mol_adiabatic", "submode"]
 LIBCALLS = ["agg_build", "agg_build_env", "agg_build_raises", "agg_rebuild", "get_Hamiltonian", "relaxation_tensor", "rate_matrix",
             "set_rwa", "time_to_frequency_axis", "frequency_to_time_axis", "thermal_state", "molecule_hamiltonian",
             "cf_add", "sd_from_cf", "ft_cf", "abs_calculate", "propagate", "diagonalize", "convert"]
@@ -104,7 +104,7 @@ class World:
         "wavelength (nm) is not used for FrequencyAxis step/data (a linear axis in wavelength is not linear in energy)",
     ]
     rule = ("program = seeded list of enter/exit of energy/frequency/length units contexts (real nested `with`), set/get through "
-            "13 units-managed accessors over all 11 energy units, conversions, global set_current_units, 19 library calls and "
+            "16 units-managed accessors over all 11 energy units, conversions, global set_current_units, 19 library calls and "
             "faults (user exception, raising library call, unknown unit); thorough tier re-runs each sampled program with a user "
             "exception at every position; non-trivial = >=1 context and >=1 set/get/libcall inside it; distinct = distinct "
             "event-log digests among non-trivial runs")
@@ -519,6 +519,14 @@ class Runner:
                 obj = self.objs.get(name, (None,))[0] or qr.Molecule([0.0, 1.0])
                 obj.set_transition_width((0, 1), v)
                 store = e
+            elif name == "mol_adiabatic":
+                obj = self.objs.get(name, (None,))[0] or qr.Molecule([0.0, 1.0, 1.2])
+                obj.set_adiabatic_coupling(1, 2, v)
+                store = e
+            elif name == "submode":
+                from quantarhei.builders.submodes import SubMode
+                obj = SubMode(omega=v)
+                store = e
             elif name == "mode_new":
                 obj = qr.Mode(frequency=v)
                 store = e
@@ -602,6 +610,14 @@ class Runner:
                 exp = float(from_internal(u, e))
             elif name == "mol_width":
                 got = obj.get_transition_width((0, 1))
+                exp = e
+                managed = False
+            elif name == "mol_adiabatic":
+                got = obj.get_adiabatic_coupling(1, 2)
+                exp = e
+                managed = False
+            elif name == "submode":
+                got = obj.omega
                 exp = e
                 managed = False
             elif name == "mode_new":
